@@ -410,6 +410,8 @@ def run(run, model):
     run.try_rule(r12_9, model)
     run.try_rule(r12_10, model)
     run.try_rule(r12_11, model)
+    # positions attached to diagnostics lie in the text they refer to: errors of a non-entry file (shared with C04 R04.18)
+    run.try_rule(c04.r04_18, model)
     # R12.3: no entropy in lexer / parser
     run.rule("R12.3", "lexing and parsing are deterministic: no hash-ordered iteration and no entropy source in the lexer/parser/cst/ast crates")
     bad = [c for c in mir.calls if c["file"].startswith(("crates/lexer/src", "crates/parser/src")) and re.search(r"std::collections::Hash(Map|Set)|RandomState|SystemTime|Instant::now|std::env::", c["callee"])]
